@@ -86,11 +86,13 @@ Proof.
   destruct (sNvar s =? 0) eqn:E2; cbn [negb orb] in *.
   2:{ inversion H; subst. unfold wf. repeat split; auto. }
   rewrite Z2Nat.id by lia.
-  destruct (sN s =? 1) eqn:E3; cbn [negb andb] in *.
-  { inversion H; subst; clear H. cbn. unfold wf; cbn. repeat split; auto; lia. }
+  destruct (keep && tree s) eqn:EK; cbn [negb] in *.
+  { inversion H; subst. unfold wf. repeat split; auto. }
+  destruct ((sN s =? 1) && negb (tree s)) eqn:E3.
+  { inversion H; subst; clear H. cbn. unfold wf; cbn.
+    replace (negb keep && tree s) with false by lia. repeat split; auto; lia. }
   destruct keep; cbn [andb negb] in *.
-  - destruct (tree s) eqn:E4; cbn [negb].
-    { inversion H; subst. unfold wf. repeat split; auto. }
+  - destruct (tree s) eqn:E4; [discriminate|]. cbn [negb andb] in *.
     destruct (shift (sN s - 1 - Z.to_nat z) (Z.to_nat z) (mem s) (oob s)) as [m1 ob] eqn:ES.
     inversion H; subst; clear H.
     apply shift_spec in ES; [|lia]. destruct ES as [S1 [S2 S3]].
@@ -122,7 +124,7 @@ Qed.
 Lemma aremove_nact : forall a i keep, i < length (aps a) -> nact_ok a -> nact_ok (aremove a i keep).
 Proof.
   intros a i keep Hi Hn. unfold aremove, dec_nact, nact_ok in *.
-  destruct (length (aps a) =? 1) eqn:E1.
+  destruct ((length (aps a) =? 1) && negb (atree a)) eqn:E1.
   { cbn. destruct (Z.of_nat i <? aNact a)%Z eqn:E; lia. }
   destruct keep.
   { cbn. rewrite remove_nth_length by auto. destruct (Z.of_nat i <? aNact a)%Z eqn:E; lia. }
